@@ -257,7 +257,7 @@ End Atom.
 Definition read_fuel (text : list Z) : nat := (4 * length text + 8)%nat.
 
 Definition read (text : list Z) : status * list sexp :=
-  observe (parse_whole true (read_fuel text) (scan_text text)).
+  observe (parse_whole true false (read_fuel text) (scan_text text)).
 
 (* ---- the exact mathematical value of a numeric notation (independent of Reader.digits_val:
         most significant digit first, value = d * base^(number of digits after it) + rest) ---- *)
